@@ -332,6 +332,9 @@ func (h *httpServerHandler) handlePostRequest(ctx context.Context, w http.Respon
 			sessionID = session.GetID()
 		}
 		notificationSender := newSSENotificationSender(w, flusher, sessionID)
+		// One event-id generator per stream: with separate writers the notifications and the final
+		// response both started counting at 1 and produced the same "evt-<ms>-<n>" id within a millisecond.
+		notificationSender.sseWriter = sseResponder.sseWriter
 		reqCtx := withNotificationSender(ctx, notificationSender)
 		if session != nil {
 			reqCtx = setSessionToContext(reqCtx, session)
